@@ -1,14 +1,18 @@
 (* C12 -- Dimension groups are dependency-closed sets obeying lattice laws.
    Statements only; every proof is `exact <lemma>` from Proofs/GroupProofs.v (generic: ANY universe u with
    wf_universe u = true, ANY name lists, unbounded) or Proofs/GroupProofsShipped.v (the shipped universes of
-   Gen/Universes.v, REGENERATED from /repo's dimensions.yaml + old_dimensions/*.yaml on every run).
+   Gen/Universes.v, REGENERATED from /repo's dimensions.yaml + old_dimensions/*.yaml on every run) or
+   Proofs/GroupProofsX*.v (about Gen/GroupGen.v: the bodies of DimensionGroup.__new__ / lookup_order / union /
+   intersection / __eq__ / __le__ / isdisjoint / __hash__ and DimensionUniverse.sorted, REGENERATED from /repo's
+   dimensions/_group.py and _universe.py on every run; primitives in Model/GroupX.v).
 
    Vocabulary (Proofs/GroupProofs.v):
      known u d   := In d (names_of u)
      closed u T  := forall d e, In d T -> find_elem u d = Some e -> incl (deps e) T     (deps = required ++ implied)
      same a b    := forall x, In x a <-> In x b                                         (equal as sets) *)
 From Coq Require Import String List Bool Arith.
-From V Require Import Model.Universe Model.Group Gen.Universes Proofs.GroupProofs Proofs.GroupProofsShipped.
+From V Require Import Model.Universe Model.Group Model.GroupX Gen.Universes Gen.GroupGen.
+From V Require Import Proofs.GroupProofs Proofs.GroupProofsShipped Proofs.GroupProofsX Proofs.GroupProofsX2 Proofs.GroupProofsX3 Proofs.GroupProofsXShipped.
 Import ListNotations.
 Open Scope string_scope.
 Open Scope list_scope.
@@ -185,6 +189,113 @@ Theorem lookup_order_generic_refuted :
 Proof. exact lookup_generic_refuted_p. Qed.
 Print Assumptions lookup_order_generic_refuted.
 
+(* ==== the algorithms AS CODED (Gen/GroupGen.v, regenerated from the Python source) ==== *)
+(* DimensionGroup(universe, names): the generated constructor returns exactly what the hand model returns -- the same
+   group record (all seven fields, lookup_order included), the same KeyError -- for ANY well-formed universe and ANY
+   list of names.  Every generic theorem above therefore speaks about the code as written; an edit of __new__ /
+   lookup_order / sorted that changes a result in some well-formed universe breaks this proof. *)
+Theorem gen_new_agrees : forall u l, wf_universe u = true -> gen_group u l true = mkgroup u l.
+Proof. exact gen_group_agrees. Qed.
+Print Assumptions gen_new_agrees.
+
+(* `_conform=False` (what __getnewargs__ / pickling passes): on the names of a group it rebuilds that group *)
+Theorem gen_new_noconform_agrees : forall u l G, wf_universe u = true -> mkgroup u l = GOk G ->
+  gen_group u (gnames G) false = GOk G.
+Proof. exact gen_group_noconform_agrees. Qed.
+Print Assumptions gen_new_noconform_agrees.
+
+Theorem gen_lookup_order_agrees : forall u req elems, wf_universe u = true -> incl req (names_of u) ->
+  gen_lookup_order u req elems = lookup_order u req elems.
+Proof. exact gen_lookup_agrees. Qed.
+Print Assumptions gen_lookup_order_agrees.
+
+(* the keys of _data_coordinate_indices (a dict: a duplicate key would be dropped) are required ++ implied *)
+Theorem gen_data_coordinate_keys_agrees : forall u l G, wf_universe u = true -> mkgroup u l = GOk G ->
+  gen_data_coordinate_keys u l = GOk (data_coordinate_keys G).
+Proof. exact gen_dck_agrees. Qed.
+Print Assumptions gen_data_coordinate_keys_agrees.
+
+(* the constructor as coded never loops: a group for known names, KeyError as soon as one name is unknown *)
+Theorem gen_new_outcome : forall u l, wf_universe u = true ->
+  (incl l (names_of u) /\ exists G, gen_group u l true = GOk G)
+  \/ ((exists y, In y l /\ ~ In y (names_of u)) /\ gen_group u l true = GKeyError).
+Proof. exact gen_group_outcome. Qed.
+Print Assumptions gen_new_outcome.
+
+(* the main clause of C12 over the code as written: smallest closed superset, in universe order *)
+Theorem gen_new_least_closed_superset : forall u l G, wf_universe u = true -> gen_group u l true = GOk G ->
+  incl l (gnames G) /\ closed u (gnames G) /\ (forall T, closed u T -> incl l T -> incl (gnames G) T)
+  /\ sort_names u (gnames G) = gnames G.
+Proof. exact gen_group_least. Qed.
+Print Assumptions gen_new_least_closed_superset.
+
+(* "the same object however it was spelled" (Python set iteration order, duplicates, redundant members): equal name
+   sets give equal results, failures included *)
+Theorem gen_new_canonical : forall u l1 l2, wf_universe u = true -> same l1 l2 ->
+  gen_group u l1 true = gen_group u l2 true.
+Proof. exact gen_group_canonical. Qed.
+Print Assumptions gen_new_canonical.
+
+(* required / implied partition the group, required = members no member implies, required regenerates the group *)
+Theorem gen_new_required_implied : forall u l G d, wf_universe u = true -> gen_group u l true = GOk G ->
+  ((In d (gnames G) <-> In d (grequired G) \/ In d (gimplied G)) /\ ~ (In d (grequired G) /\ In d (gimplied G)))
+  /\ (In d (grequired G) <->
+      In d (gnames G) /\ forall d2 e2, In d2 (gnames G) -> find_elem u d2 = Some e2 -> ~ In d (eimp e2))
+  /\ gen_group u (grequired G) true = GOk G.
+Proof. exact gen_group_parts. Qed.
+Print Assumptions gen_new_required_implied.
+
+(* n-ary union / intersection AS CODED (`a.union(b, c, ...)`): defined, exactly the set union / intersection of all
+   operands, an upper / lower bound of every operand and below / above every other bound *)
+Theorem nary_union_lub : forall u a others, wf_universe u = true -> is_group u a -> Forall (is_group u) others ->
+  exists c, gen_union u a others = GOk c /\ is_group u c
+    /\ (forall x, In x (gnames c) <-> In x (gnames a) \/ exists b, In b others /\ In x (gnames b))
+    /\ incl (gnames a) (gnames c) /\ (forall b, In b others -> incl (gnames b) (gnames c))
+    /\ (forall h, is_group u h -> incl (gnames a) (gnames h) -> (forall b, In b others -> incl (gnames b) (gnames h)) ->
+        incl (gnames c) (gnames h)).
+Proof. exact gen_union_lub. Qed.
+Print Assumptions nary_union_lub.
+
+Theorem nary_intersection_glb : forall u a others, wf_universe u = true -> is_group u a -> Forall (is_group u) others ->
+  exists c, gen_intersection u a others = GOk c /\ is_group u c
+    /\ (forall x, In x (gnames c) <-> In x (gnames a) /\ forall b, In b others -> In x (gnames b))
+    /\ incl (gnames c) (gnames a) /\ (forall b, In b others -> incl (gnames c) (gnames b))
+    /\ (forall h, is_group u h -> incl (gnames h) (gnames a) -> (forall b, In b others -> incl (gnames h) (gnames b)) ->
+        incl (gnames h) (gnames c)).
+Proof. exact gen_intersection_glb. Qed.
+Print Assumptions nary_intersection_glb.
+
+(* `a | b` = a.union(b), `a & b` = a.intersection(b) (shape checked by the translator) are the hand model's operators *)
+Theorem binary_operators_agree : forall u a b, wf_universe u = true -> is_group u a -> is_group u b ->
+  gen_union u a [b] = gunion u a b /\ gen_intersection u a [b] = ginter u a b.
+Proof. intros u a b H Ha Hb. exact (conj (gen_union_binary u a b H Ha Hb) (gen_intersection_binary u a b H Ha Hb)). Qed.
+Print Assumptions binary_operators_agree.
+
+(* ==, <=, issubset, isdisjoint, hash as coded *)
+Theorem comparisons_agree : forall u a b, is_group u a -> is_group u b ->
+  gen_eq a b = geqb a b /\ gen_le a b = gsubset a b /\ gen_issubset a b = gsubset a b
+  /\ gen_isdisjoint a b = gdisjoint a b /\ gen_hash a = ghash a.
+Proof.
+  intros u a b Ha Hb. split; [exact (gen_eq_agrees u a b Ha Hb)|]. split; [reflexivity|]. split; [reflexivity|].
+  split; reflexivity.
+Qed.
+Print Assumptions comparisons_agree.
+
+(* ---- skypix dimensions: no dependencies, nothing depends on them (all shipped universes, by computation); adding
+        such a dimension to ANY group adds exactly that name, as a required dimension, and changes nothing else ---- *)
+Theorem skypix_isolated_shipped : forallb skypix_isolatedb shipped_universes = true.
+Proof. exact skypix_isolated_shipped_p. Qed.
+Print Assumptions skypix_isolated_shipped.
+
+Theorem isolated_dimension_extends : forall u s l G, wf_universe u = true -> isolatedb u s = true -> mkgroup u l = GOk G ->
+  exists G', mkgroup u (s :: l) = GOk G'
+    /\ (forall x, In x (gnames G') <-> x = s \/ In x (gnames G))
+    /\ In s (grequired G')
+    /\ (forall d, d <> s -> (In d (grequired G') <-> In d (grequired G)))
+    /\ (forall d, In d (gimplied G') <-> In d (gimplied G)).
+Proof. exact isolated_extends. Qed.
+Print Assumptions isolated_dimension_extends.
+
 (* ---- non-vacuity: the hypotheses are satisfiable by the real universe and a real group ---- *)
 Example wf_current : wf_universe u_current = true.
 Proof. exact current_wf_p. Qed.
@@ -194,3 +305,9 @@ Example group_visit_detector_tract :
     /\ grequired g = ["instrument"; "skymap"; "detector"; "tract"; "visit"]
     /\ gimplied g = ["band"; "day_obs"; "physical_filter"].
 Proof. exact example_group_p. Qed.
+
+Example gen_group_visit_htm7 :
+  exists g, gen_group u_current ["visit"; "htm7"] true = GOk g
+    /\ grequired g = ["htm7"; "instrument"; "visit"] /\ gskypix g = ["htm7"]
+    /\ gen_union u_current g [g; g] = GOk g.
+Proof. exact example_gen_group_p. Qed.
